@@ -43,6 +43,8 @@ PARTIAL = [
     "NumPy views and object identity are observed (np.shares_memory / is), not proved",
     "uninitialised memory is made observable by heap poisoning, which depends on allocator reuse (sampled)",
     "methods without a skeleton get the generic oracle only (listed in the evidence as unmodelled)",
+    "estimator skeletons (fit / transform / inverse_transform with the score array as an input cell) are proved to pass the check but compared dynamically only through snapshots / read-only inputs, not through an alias graph",
+    "multivariate skeletons are written for two components; the irregular indexing skeleton is parametric in the index list",
 ]
 
 MUTATORS = {"append", "clear", "extend", "insert", "pop", "remove", "reverse", "sort"}  # list mutators by contract (C11)
@@ -170,6 +172,11 @@ ARGS = {
     ("multivariate", "standardize"): [{}, {"center": False}],
     ("multivariate", "smooth"): [{}, {"method": "LP", "bandwidth": 0.5}],
     ("multivariate", "concatenate"): [{"@static": ["@self", "@other"]}],
+    ("dense1d", "__getitem__"): [{"@pos": ["@int:1"]}, {"@pos": ["@slice:1:3"]}, {"@pos": ["@idx:0,2"]}],
+    ("dense2d", "__getitem__"): [{"@pos": ["@int:1"]}, {"@pos": ["@slice:0:2"]}, {"@pos": ["@idx:0,2"]}],
+    ("irregular", "__getitem__"): [{"@pos": ["@int:1"]}, {"@pos": ["@slice:1:3"]}, {"@pos": ["@idx:0,2"]}],
+    ("basis", "__getitem__"): [{"@pos": ["@int:1"]}, {"@pos": ["@slice:1:3"]}, {"@pos": ["@idx:0,2"]}],
+    ("multivariate", "__getitem__"): [{"@pos": ["@int:1"]}, {"@pos": ["@slice:1:3"]}, {"@pos": ["@idx:0,2"]}],
     ("multivariate", "count"): [{"@pos": ["@comp0"]}],
     ("multivariate", "index"): [{"@pos": ["@comp0"]}],
 }
@@ -233,6 +240,8 @@ def public_methods(cls):
             continue
         if callable(m):
             out.append(n)
+    if hasattr(cls, "__getitem__"):
+        out.append("__getitem__")  # indexing is public API: the subset may be a view of its parent
     return out
 
 
@@ -289,6 +298,13 @@ def _resolve(kind, seed, subject, spec):
                 return a
             if v == "@comp0":
                 return subject.data[0]
+            if v.startswith("@int:"):
+                return int(v[5:])
+            if v.startswith("@slice:"):
+                a, b = v[7:].split(":")
+                return slice(int(a), int(b))
+            if v.startswith("@idx:"):
+                return np.array([int(x) for x in v[5:].split(",")])
         if isinstance(v, np.ndarray):
             v = v.copy()
             extra.append(("option", v))
@@ -383,6 +399,11 @@ def _gen_cases(rng: Rng, tier):
             pairs = rng.sample(pairs, min(len(pairs), 70 if kind != "irregular" else 40))
         for a, b in pairs:
             yield dict(kind="pair", subject=kind, seed=seeds[0], a=[a[1], a[2]], b=[b[1], b[2]])
+    # two objects that share cells: a subset (view) and its parent, two basis-expansion objects on one basis
+    for kind, cs in by_kind.items():
+        combos = [(a, b, x, y) for a in cs for b in cs for x in ("parent", "sub") for y in ("parent", "sub") if (x, y) != ("parent", "parent")]
+        for a, b, x, y in rng.sample(combos, min(len(combos), 14 if tier == "quick" else 150)):
+            yield dict(kind="shared", subject=kind, seed=seeds[0], a=[a[1], a[2], x], b=[b[1], b[2], y])
     yield from gen_estimator_cases(rng, tier)
 
 
@@ -555,6 +576,45 @@ def _pair(case):
             d = U.diff_paths(_nocache(U.deep(res_b, skip_cache=False)), _nocache(U.deep(res_f, skip_cache=False)))
             if d:
                 viol.append(_viol("repeatable", entry, f"{mb} after {ma} differs from {mb} on a fresh object at {d[:3]}", ["state_leak"]))
+    return dict(status_a="ok" if exc_a is None else "error:" + err_class(exc_a), status_b="ok" if exc_b is None else "error:" + err_class(exc_b), viol=viol)
+
+
+def _derive(kind, parent):
+    """An object sharing cells with `parent`: a slice (view) for grid / multivariate data, the centred
+    data (same basis object) for basis expansions."""
+    if kind == "basis":
+        return parent.center()
+    return parent[1:4] if kind in ("dense1d", "multivariate") else parent[1:3]
+
+
+def _shared(case):
+    kind, seed = case["subject"], case["seed"]
+    (ma, oa, xa), (mb, ob, xb) = case["a"], case["b"]
+    viol = []
+    parent = make_subject(kind, seed)
+    sub = _derive(kind, parent)
+    objs = {"parent": parent, "sub": sub}
+    _, extra_a, res_a, exc_a = call_method(kind, seed, ma, oa, objs[xa])
+    snap = {k: U.deep(v) for k, v in objs.items()}
+    snap_res = U.deep(res_a, skip_cache=True)
+    _, extra_b, res_b, exc_b = call_method(kind, seed, mb, ob, objs[xb])
+    entry = _entry(kind, mb)
+    for k, v in objs.items():
+        d = U.diff_paths(snap[k], U.deep(v))
+        if d:
+            viol.append(_viol("inputs_unchanged", entry, f"{mb} on the {xb} changed the {k} (they share cells) at {d[:3]}", ["input_mutated", "shared_cells"]))
+    if exc_a is None:
+        d = U.diff_paths(snap_res, U.deep(res_a, skip_cache=True))
+        if d:
+            viol.append(_viol("earlier_results_unchanged", entry, f"{mb} on the {xb} changed the result returned earlier by {ma} on the {xa} at {d[:3]}", ["result_mutated", "shared_cells"]))
+    if exc_b is None:
+        p2 = make_subject(kind, seed)
+        fresh = {"parent": p2, "sub": _derive(kind, p2)}[xb]
+        _, _, res_f, exc_f = call_method(kind, seed, mb, ob, fresh)
+        if exc_f is None:
+            d = U.diff_paths(_nocache(U.deep(res_b, skip_cache=False)), _nocache(U.deep(res_f, skip_cache=False)))
+            if d:
+                viol.append(_viol("repeatable", entry, f"{mb} on the {xb} after {ma} on the {xa} differs from the same call on fresh objects at {d[:3]}", ["state_leak", "shared_cells"]))
     return dict(status_a="ok" if exc_a is None else "error:" + err_class(exc_a), status_b="ok" if exc_b is None else "error:" + err_class(exc_b), viol=viol)
 
 
@@ -965,9 +1025,11 @@ def run_impl(case):
         out = _single(case)
     elif case["kind"] == "pair":
         out = _pair(case)
+    elif case["kind"] == "shared":
+        out = _shared(case)
     else:
         out = _est(case)
-    entry = out.get("entry") or (f"{_class_of(case['subject']).__name__}.{case['b'][0]}" if case["kind"] == "pair" else f"{case.get('est')}")
+    entry = out.get("entry") or (f"{_class_of(case['subject']).__name__}.{case['b'][0]}" if case["kind"] in ("pair", "shared") else f"{case.get('est')}")
     out["viol"] = list(out.get("viol", [])) + _function_state_violation(entry, state_before)
     return out
 
@@ -1054,7 +1116,7 @@ def nontrivial(case, impl):
         return None
     if case["kind"] == "single":
         return f"{case['subject']}.{case['method']}.{case['opt']}.{case['seed']}" if impl.get("status") == "ok" else None
-    if case["kind"] == "pair":
+    if case["kind"] in ("pair", "shared"):
         return digest(case) if impl.get("status_b") == "ok" else None
     return digest(case)
 
@@ -1069,7 +1131,7 @@ def classify(case, impl):
             tags.append("size_threshold:" + case["subject"].split(":")[1])
         tags.append("status:" + impl["status"])
         tags.append("modelled" if skeleton_of(case) else "unmodelled:" + _entry(case["subject"], case["method"]))
-    elif case["kind"] == "pair":
+    elif case["kind"] in ("pair", "shared"):
         tags.append("subject:" + case["subject"])
         tags.append("pair_status:" + impl["status_a"].split(":")[0] + "/" + impl["status_b"].split(":")[0])
     else:
